@@ -30,6 +30,18 @@ func init() {
 			}
 		}
 	})
+	explore.Register("C18.constructed-store", func(p string) explore.Harness {
+		return func(x *explore.X) {
+			var l []string
+			if p != "" {
+				l = strings.Split(p, ",")
+			}
+			x.Logf("packet list: %v", l)
+			for _, f := range constructedStore(l) {
+				x.Failf(f.Clause, f.Sig, "%s", f.Msg)
+			}
+		}
+	})
 	explore.Register("C18.store-closure", func(p string) explore.Harness {
 		return func(x *explore.X) {
 			c := storeClosure()
@@ -295,6 +307,61 @@ func storeClosure() *explore.Closure {
 	}
 }
 
+// constructedStore compares a store assembled from a list with one filled by Save, before and after one Delete.
+func constructedStore(list []string) (fails []explore.ClauseFail) {
+	defer func() {
+		if r := recover(); r != nil {
+			fails = append(fails, explore.ClauseFail{Clause: "no-panic", Sig: "constructed-store-panic", Msg: fmt.Sprintf("store built from %v: panic: %v", list, r)})
+		}
+	}()
+	build := func() (*session.PacketStore, *session.PacketStore) {
+		var ps []packet.Generic
+		for _, n := range list {
+			ps = append(ps, storePkts[n])
+		}
+		a := session.NewPacketStoreWithPackets(ps)
+		b := session.NewPacketStore()
+		for _, p := range ps {
+			b.Save(p)
+		}
+		return a, b
+	}
+	obs := func(st *session.PacketStore) string {
+		var b strings.Builder
+		for _, id := range storeIDs {
+			if p := st.Lookup(id); p != nil {
+				fmt.Fprintf(&b, "[%d]=%s;", id, p.String())
+			}
+		}
+		all := st.All()
+		var ss []string
+		for _, p := range all {
+			if p == nil {
+				ss = append(ss, "<nil>")
+			} else {
+				ss = append(ss, p.String())
+			}
+		}
+		fmt.Fprintf(&b, "all(%d)=%v", len(all), ss)
+		return b.String()
+	}
+	a, b := build()
+	if ga, gb := obs(a), obs(b); ga != gb {
+		fails = append(fails, explore.ClauseFail{Clause: "store-is-map", Sig: "constructed-store-differs", Msg: fmt.Sprintf("NewPacketStoreWithPackets(%v) answers %s, a store filled by Save in the same order answers %s", list, ga, gb)})
+		return
+	}
+	for _, id := range []packet.ID{0, 1, 2, 3} {
+		a, b := build()
+		a.Delete(id)
+		b.Delete(id)
+		if ga, gb := obs(a), obs(b); ga != gb {
+			fails = append(fails, explore.ClauseFail{Clause: "store-is-map", Sig: "constructed-store-differs-after-delete", Msg: fmt.Sprintf("NewPacketStoreWithPackets(%v) then Delete(%d) answers %s, a store filled by Save answers %s", list, id, ga, gb)})
+			return
+		}
+	}
+	return
+}
+
 /* ---------- concurrency: all interleavings of small programs, linearizability ---------- */
 
 var counterSpec = &lin.Spec{
@@ -489,6 +556,37 @@ func run(r *report.Report) {
 	for _, s := range cr.Samples {
 		r.Sample(map[string]string{"part": "store-closure", "operations": s})
 	}
+	// 3b. stores built from a packet list (NewPacketStoreWithPackets / NewIDCounterWithNext: how a restored session is assembled)
+	t0 = r.Seconds()
+	viol, nv = nil, 0
+	nlists := 0
+	names := make([]string, 0, len(storePkts))
+	for n := range storePkts {
+		names = append(names, n)
+	}
+	sort.Strings(names)
+	var lists [][]string
+	for _, a := range names {
+		lists = append(lists, []string{a})
+		for _, b := range names {
+			lists = append(lists, []string{a, b})
+			for _, c := range names {
+				lists = append(lists, []string{a, b, c})
+			}
+		}
+	}
+	lists = append(lists, nil)
+	for _, l := range lists {
+		nlists++
+		for _, f := range constructedStore(l) {
+			nv++
+			if len(viol) < 8 {
+				viol = append(viol, explore.Violation{Harness: "C18.constructed-store", Params: strings.Join(l, ","), Clause: f.Clause, Sig: f.Sig, Msg: f.Msg})
+			}
+		}
+	}
+	r.AddSweep(report.Part{Name: "constructed-store", Mode: "sweep", Bound: fmt.Sprintf("all %d packet lists of length 0-3 over 11 packets (repeated ids, id-less packets)", nlists), Evaluations: int64(nlists) * 6, Nontrivial: int64(nlists),
+		Rule: "NewPacketStoreWithPackets(list) against a store filled by Save in the same order: Lookup of 5 ids, All (also its length), and the same again after Delete of each of ids 0-3 on a fresh pair; non-trivial = lists", Exhaustive: true, Wall: r.Seconds() - t0, Violations: nv}, viol)
 	r.RacePass()
 	// 4. concurrency
 	st := explore.Explore(explore.Config{Harness: "C18.counter-conc", Bound: 12, FreeSwitch: true, Workers: report.Workers(), Deadline: r.Deadline()})
